@@ -1,7 +1,7 @@
 """C06 - approximation guarantee: weight <= (2k-1) x optimum, exact for k = 1, k = 0 rejected."""
 from lib import engine
 from lib.core import tier
-from units import k17_spanner
+from units import k17_spanner, k17b_bfs
 from . import common
 
 LEVEL = "other"
@@ -10,7 +10,8 @@ KINDS = {"approx-ratio", "approx-k1-not-exact", "approx-k0-accepted", "approx-k0
 EXPLANATION = (
     "PROVED by CBMC (loop-free, every k): BaseApproxSpannerAlgorithm::run throws for k=0 before the exact phase or any "
     "write to the output iterator, and accepts every k>=1 (K18c); the spanner loop hands is_bfs_reachable the hop bound 2k-1 "
-    "(K17a, callee precondition).  The quantitative guarantee itself is a global optimum argument no CBMC contract "
+    "(K17a, callee precondition) and drops an edge iff the answer was true; is_bfs_reachable answers true iff the target is within "
+    "max_hops hops (K17b, n<=4/6, see C15).  The quantitative guarantee itself is a global optimum argument no CBMC contract "
     "expresses and is BOUNDED: Contract K18 continued: ret <= (2k-1)*OPT with OPT from the brute-force oracle (cross-checked against an "
     "independent Horton oracle), k=1 => ret = OPT, k=0 => std::runtime_error and no cycle emitted.  BOUNDED "
     "stand-in on the real sequential approximate entry points over the exact-domain set x k in {0,1,2,3,5,n}; "
@@ -21,7 +22,7 @@ EXPLANATION = (
 
 
 def run(rep):
-    engine.run_units(rep, [u for u in k17_spanner.units(tier()) if u.get("unit", "").startswith(("K18c", "K17a"))])
+    engine.run_units(rep, [u for u in k17_spanner.units(tier()) if u.get("unit", "").startswith(("K18c", "K17a"))] + k17b_bfs.units(tier()))
     common.native_filtered(rep, "e3_approx", KINDS, args=["--only", "approx"],
                            functions={"approx_mcb_sva_signed": "bounded", "approx_mcb_sva_fvs_trees": "bounded",
                                       "approx_mcb_sva_iso_trees": "bounded"},
